@@ -338,11 +338,11 @@ package proxy
 // State guarded by the sender's mutex. Only sendReplicationMessages allocates ids (rely: the counter and the ring
 // pointer are stable while the lock is free; the acknowledgement side may only discard from the front, which keeps
 // the end of the ring at nextProxyTaskID+1). A-mem: ids stay below 2^61.
-//@ guards proxyStreamSender.mu: nextProxyTaskID, idRing, *idRing, prevAckBySource, lastMsgSendTime, lastSentWatermark
+//@ guards proxyStreamSender.mu: nextProxyTaskID, idRing, *idRing, prevAckBySource, *prevAckBySource, lastMsgSendTime, lastSentWatermark
 //@   lockinv self.idRing != nil && self.idRing.wf() && self.nextProxyTaskID >= 0 &&
 //@           (self.idRing.size > 0 ==> self.idRing.startProxyID + int64(self.idRing.size) == self.nextProxyTaskID + 1) &&
 //@           self.lastSentWatermark <= self.nextProxyTaskID + 1
-//@   rely self.nextProxyTaskID == old(self.nextProxyTaskID) && self.idRing == old(self.idRing) && self.nextProxyTaskID < 2305843009213693952
+//@   rely self.nextProxyTaskID == old(self.nextProxyTaskID) && self.idRing == old(self.idRing) && self.nextProxyTaskID < 2305843009213693952 && self.prevAckBySource == old(self.prevAckBySource)
 
 //@ extern quiet (channel.ShutdownOnce).IsShutdown
 //@ extern quiet (channel.ShutdownOnce).Channel
@@ -415,3 +415,32 @@ package proxy
 //@   loop 1 invariant r.lastSentMin <= 0 || r.lastSentMin <= r.lastExclusiveHighOriginal
 //@   loop 2 invariant first <==> $n == 0
 //@   loop 2 invariant !first ==> (forall t history.ClusterShardID :: { t in $seen } t in $seen ==> min <= r.ackByTarget[t])
+
+// ---------------------------------------------------------------------------------------------
+// C01 (G2): un-mapping an acknowledgement of the target stream back to the source shards.
+// ---------------------------------------------------------------------------------------------
+
+//@ extern quiet (adminservice.AdminService_StreamWorkflowReplicationMessagesServer).Recv
+//@ extern quiet (*proxyStreamSender).buildSenderDebugSnapshot
+//@ extern (ShardManager).DeliverAckToShardOwner@(*proxyStreamSender).recvAck
+//@   trusted hands the acknowledgement to the receiver of the source shard (contract of the shard manager, see C09)
+//@   assigns nothing
+
+// Whenever an acknowledgement is forwarded for source shard S at target watermark w, its value is the per-source
+// maximum the ring reports for S at w (first loop) or the value forwarded last time for S (fallback loop, which is
+// taken only when the ring has nothing at or below w); entries are discarded only after the forwarding loops, and
+// exactly as many as the aggregation covered.
+//@ contract (*proxyStreamSender).recvAck
+//@   props C01
+//@   requires s.prevAckBySource != nil && !fresh(s.prevAckBySource)
+//@   callpre DeliverAckToShardOwner.1: @forwards_aggregate: $0 in shardToAck && ackOf($1.Req) == shardToAck[$0] && $4 == shardToAck[$0]
+//@   callpre DeliverAckToShardOwner.2: @fallback_only_when_empty: len(shardToAck) == 0 && $0 in pendingPrev && ackOf($1.Req) == pendingPrev[$0]
+//@   callpre AggregateUpTo: @at_received_watermark: $watermark == proxyAckWatermark
+//@   callpre Discard: @count_from_aggregation: $count == pendingDiscard
+//@   arith wrap
+//@   loop 1 invariant s.prevAckBySource != nil && !fresh(s.prevAckBySource)
+//@   loop 2 invariant shardToAck != nil && sent != nil && s.prevAckBySource != nil && !fresh(s.prevAckBySource) && sent != shardToAck && fresh(shardToAck) && fresh(sent)
+//@   loop 3 invariant shardToAck != nil && sent != nil && s.prevAckBySource != nil && !fresh(s.prevAckBySource) && sent != shardToAck && fresh(shardToAck) && fresh(sent)
+//@   loop 4 invariant pendingPrev != nil && fresh(pendingPrev) && s.prevAckBySource != nil
+//@   loop 5 invariant pendingPrev != nil && sent != nil && sent != pendingPrev && len(shardToAck) == 0
+//@   loop 6 invariant pendingPrev != nil && sent != nil && sent != pendingPrev && len(shardToAck) == 0
